@@ -19,10 +19,10 @@ import (
 // becomes: requires len/alias/lanepre, assigns out[0:L], ensures forall lane (proved through
 // the loop invariant), ensures forall meaning (derived: lane + the scalar meaning lemma),
 // loop 0 invariants (index shape, done-prefix, unchanged-outside) and decreases.
-func (c *FuncCtx) expandVecKernel() {
-	v := c.con.Vec
+func expandVecKernel(con *Contract) {
+	v := con.Vec
 	if v.Out == "" || len(v.In) == 0 {
-		panic(verr("%s: veckernel needs out= and in=", c.con.File))
+		panic(verr("%s: veckernel needs out= and in=", con.File))
 	}
 	idx := v.Idx
 	if idx == "" {
@@ -32,11 +32,10 @@ func (c *FuncCtx) expandVecKernel() {
 	mk := func(s string) *Clause {
 		e, err := parser.ParseExpr(s)
 		if err != nil {
-			panic(verr("%s: generated clause %q: %v", c.con.File, s, err))
+			panic(verr("%s: generated clause %q: %v", con.File, s, err))
 		}
-		return &Clause{Text: s, Expr: e, Line: c.con.File}
+		return &Clause{Text: s, Expr: e, Line: con.File}
 	}
-	con := c.con
 	var req []*Clause
 	req = append(req, mk(L+" % 8 == 0"))
 	seen := map[string]bool{v.In[0]: true}
